@@ -53,6 +53,13 @@ type transSpec struct {
 	effects  map[string]string                        // printed call -> event name
 	binds    map[string][][2]string                   // printed call on the right of `a, b := call` -> (Go name, Lean term)
 	wraps    map[string]func(tail string) string      // printed call statement -> the Lean term around the rest (a translated callee)
+	stateTy    []string          // Lean types of the tracked variables (needed for `for cond {}` loops, which become `let rec`)
+	mapDefault map[string]string // tracked Go maps (by Lean name): the value read for an absent key
+	litType    string            // Lean type of integer literals ("" = Nat)
+	loopFuel   string            // fuel of `for cond {}` loops (a Lean term over the tracked variables)
+	topCont    bool              // `continue` outside a translated loop ends the translated block
+	closeEv    bool              // close(ch) appends ch to the event list
+	join       bool              // the statements after an if become a shared local continuation (no duplication)
 }
 
 type translator struct {
@@ -69,6 +76,21 @@ func (t *translator) fail(format string, a ...any) string {
 }
 
 func (t *translator) stArgs() string { return strings.Join(t.spec.stateLn, " ") }
+
+// stFun: "fun st.. => " (with the types of the tracked variables when the spec gives them)
+func (t *translator) stFun() string {
+	if len(t.spec.stateLn) == 0 {
+		return ""
+	}
+	if len(t.spec.stateTy) == len(t.spec.stateLn) {
+		var typed []string
+		for i, n := range t.spec.stateLn {
+			typed = append(typed, "("+n+" : "+t.spec.stateTy[i]+")")
+		}
+		return "fun " + strings.Join(typed, " ") + " => "
+	}
+	return "fun " + t.stArgs() + " => "
+}
 
 func (t *translator) lookup(e ast.Expr) (string, bool) {
 	s := goStr(e)
@@ -96,6 +118,9 @@ func (t *translator) expr(e ast.Expr) string {
 		return x.Name
 	case *ast.BasicLit:
 		if x.Kind == token.INT {
+			if t.spec.litType != "" {
+				return "(" + x.Value + " : " + t.spec.litType + ")"
+			}
 			return x.Value
 		}
 		if x.Kind == token.STRING {
@@ -120,6 +145,16 @@ func (t *translator) expr(e ast.Expr) string {
 	case *ast.UnaryExpr:
 		if x.Op == token.NOT {
 			return "(!" + t.expr(x.X) + ")"
+		}
+		if x.Op == token.SUB {
+			return "(-" + t.expr(x.X) + ")"
+		}
+	case *ast.IndexExpr:
+		// m[k] on a tracked map: the first binding of k, the zero value when there is none
+		if ln, ok := t.lookup(x.X); ok {
+			if d, ok := t.spec.mapDefault[ln]; ok {
+				return "((List.lookup (" + t.expr(x.Index) + ") " + ln + ").getD " + d + ")"
+			}
 		}
 	case *ast.BinaryExpr:
 		a, b := t.expr(x.X), t.expr(x.Y)
@@ -224,6 +259,9 @@ func (t *translator) stmts(list []ast.Stmt, next func() string, cont, brk string
 	case *ast.BranchStmt:
 		switch x.Tok {
 		case token.CONTINUE:
+			if cont == "" && t.spec.topCont {
+				return t.spec.fallOff(t.spec.stateLn)
+			}
 			if cont == "" {
 				return t.fail("continue outside a loop")
 			}
@@ -244,6 +282,16 @@ func (t *translator) stmts(list []ast.Stmt, next func() string, cont, brk string
 			}
 			if w, ok := t.spec.wraps[goStr(c)]; ok {
 				return w(tail())
+			}
+			if id, ok := c.Fun.(*ast.Ident); ok && id.Name == "close" && len(c.Args) == 1 && t.spec.closeEv {
+				return "(let " + t.spec.evVar + " := " + t.spec.evVar + " ++ [" + t.expr(c.Args[0]) + "]; " + tail() + ")"
+			}
+			if id, ok := c.Fun.(*ast.Ident); ok && id.Name == "delete" && len(c.Args) == 2 {
+				if ln, ok := t.lookup(c.Args[0]); ok {
+					if _, ok := t.spec.mapDefault[ln]; ok {
+						return "(let " + ln + " := " + ln + ".filter (fun kv => !(kv.1 == " + t.expr(c.Args[1]) + ")); " + tail() + ")"
+					}
+				}
 			}
 			if ev, ok := t.spec.effects[goStr(c)]; ok {
 				return event(ev)
@@ -273,6 +321,12 @@ func (t *translator) stmts(list []ast.Stmt, next func() string, cont, brk string
 					return t.stmts(append([]ast.Stmt{as, &plain}, rest...), next, cont, brk)
 				}
 			}
+			if ok && len(as.Lhs) == 1 && len(as.Rhs) == 1 && as.Tok == token.DEFINE {
+				// `if x := e; cond {…}`: the definition first, then the plain if
+				plain := *x
+				plain.Init = nil
+				return t.stmts(append([]ast.Stmt{as, &plain}, rest...), next, cont, brk)
+			}
 			if !ok || len(as.Lhs) != 2 || len(as.Rhs) != 1 {
 				return t.fail("unsupported if initialiser")
 			}
@@ -297,6 +351,19 @@ func (t *translator) stmts(list []ast.Stmt, next func() string, cont, brk string
 		} else {
 			cond = t.expr(x.Cond)
 		}
+		if t.spec.join && len(rest) > 0 {
+			// what follows the if is shared by both branches: a local continuation over the tracked variables
+			t.loops++
+			join := fmt.Sprintf("join%d", t.loops)
+			after := tail()
+			jn := func() string { return strings.TrimSpace(join + " " + t.stArgs()) }
+			thenPart := t.stmts(x.Body.List, jn, cont, brk)
+			elsePart := jn()
+			if x.Else != nil {
+				elsePart = t.stmts([]ast.Stmt{x.Else}, jn, cont, brk)
+			}
+			return "(let " + join + " := " + t.stFun() + after + "; if " + cond + " then " + thenPart + " else " + elsePart + ")"
+		}
 		thenPart := t.stmts(append(append([]ast.Stmt{}, x.Body.List...), rest...), next, cont, brk)
 		var elsePart string
 		if x.Else != nil {
@@ -319,12 +386,27 @@ func (t *translator) stmts(list []ast.Stmt, next func() string, cont, brk string
 				return out
 			}
 		}
+		if len(x.Lhs) == 2 && len(x.Rhs) == 1 && x.Tok == token.DEFINE {
+			if ix, ok := x.Rhs[0].(*ast.IndexExpr); ok {
+				if ln, ok := t.lookup(ix.X); ok {
+					if d, ok := t.spec.mapDefault[ln]; ok {
+						v, okv := x.Lhs[0].(*ast.Ident), x.Lhs[1].(*ast.Ident)
+						return "(let " + v.Name + " := ((List.lookup (" + t.expr(ix.Index) + ") " + ln + ").getD " + d + "); (let " + okv.Name +
+							" := (List.lookup (" + t.expr(ix.Index) + ") " + ln + ").isSome; " + tail() + "))"
+					}
+				}
+			}
+		}
 		if len(x.Lhs) == 1 && len(x.Rhs) == 1 {
 			if ix, ok := x.Lhs[0].(*ast.IndexExpr); ok && x.Tok == token.ASSIGN {
 				// m[k] = v on a tracked map: the association list gets a new first binding
 				if ln, ok := t.lookup(ix.X); ok {
 					for _, s := range t.spec.stateLn {
 						if s == ln {
+							if _, isMap := t.spec.mapDefault[ln]; isMap {
+								// keys stay unique (the list is also ranged over)
+								return "(let " + ln + " := (" + t.expr(ix.Index) + ", " + t.expr(x.Rhs[0]) + ") :: " + ln + ".filter (fun kv => !(kv.1 == " + t.expr(ix.Index) + ")); " + tail() + ")"
+							}
 							return "(let " + ln + " := (" + t.expr(ix.Index) + ", " + t.expr(x.Rhs[0]) + ") :: " + ln + "; " + tail() + ")"
 						}
 					}
@@ -352,16 +434,41 @@ func (t *translator) stmts(list []ast.Stmt, next func() string, cont, brk string
 			return t.fail("range without value variable")
 		}
 		v := x.Value.(*ast.Ident).Name
+		pre := ""
+		if k, ok := x.Key.(*ast.Ident); ok && k.Name != "_" {
+			// key and value of a tracked map: the association list is walked in list order
+			ln, okl := t.lookup(x.X)
+			if _, okm := t.spec.mapDefault[ln]; !okl || !okm {
+				return t.fail("range with an index variable over something that is not a tracked map")
+			}
+			pre = "let " + k.Name + " := kv.1; let " + v + " := kv.2; "
+			v = "kv"
+		}
 		t.loops++
 		kont := fmt.Sprintf("kont%d", t.loops)
 		exit := fmt.Sprintf("exit%d", t.loops)
-		stBinders := ""
-		if len(t.spec.stateLn) > 0 {
-			stBinders = "fun " + t.stArgs() + " => "
-		}
+		stBinders := t.stFun()
 		body := t.stmts(x.Body.List, func() string { return strings.TrimSpace(kont + " " + t.stArgs()) }, kont, exit)
 		after := tail()
-		return "(let " + exit + " := " + stBinders + after + "; List.foldr (fun " + v + " " + kont + " => " + stBinders + body + ") " + exit + " " + t.expr(x.X) + " " + t.stArgs() + ")"
+		return "(let " + exit + " := " + stBinders + after + "; List.foldr (fun " + v + " " + kont + " => " + pre + stBinders + body + ") " + exit + " " + t.expr(x.X) + " " + t.stArgs() + ")"
+	case *ast.ForStmt:
+		// `for cond { body }`: a recursive function with fuel (the spec says how much is enough)
+		if x.Init != nil || x.Post != nil || x.Cond == nil || t.spec.loopFuel == "" || len(t.spec.stateTy) != len(t.spec.stateLn) {
+			return t.fail("unsupported for statement")
+		}
+		t.loops++
+		loop := fmt.Sprintf("loop%d", t.loops)
+		exit := fmt.Sprintf("exit%d", t.loops)
+		var typed []string
+		for i, n := range t.spec.stateLn {
+			typed = append(typed, "("+n+" : "+t.spec.stateTy[i]+")")
+		}
+		after := tail()
+		again := loop + " fuel " + t.stArgs()
+		body := t.stmts(x.Body.List, func() string { return again }, loop+" fuel", exit)
+		return "(let " + exit + " := " + t.stFun() + after + "; let rec " + loop + " (fuel : Nat) " + strings.Join(typed, " ") + " : " + t.spec.retType +
+			" := match fuel with | 0 => " + exit + " " + t.stArgs() + " | fuel + 1 => (if " + t.expr(x.Cond) + " then " + body + " else " + exit + " " + t.stArgs() + "); " +
+			loop + " (" + t.spec.loopFuel + ") " + t.stArgs() + ")"
 	}
 	return t.fail("unsupported statement at %v", fset.Position(st.Pos()))
 }
@@ -583,6 +690,69 @@ func genTxn(repo, out string) {
 		panicVal: "none", skipCall: isHookOrLog,
 	})
 	sb.WriteString("end GenTxn\n")
+	if err := os.WriteFile(out, []byte(sb.String()), 0644); err != nil {
+		fatal(err)
+	}
+}
+
+// genWM writes Generated/WM.lean: the body of the `case m := <-w.markC` branch of WaterMark.process
+func genWM(repo, out string) {
+	p := parseDir(repo + "/pkg/watermark")
+	var sb strings.Builder
+	sb.WriteString("/-! GENERATED by /verif/extract (gotrans.go) from /repo/pkg/watermark/watermark.go on every check run. Do not edit.\n")
+	sb.WriteString("    `handle`: what `WaterMark.process` does with one message taken from `markC` (a waiter, or a Begin / Done mark).\n")
+	sb.WriteString("    The heap is a sorted list (heap.Push = sorted insertion, heap.Pop = tail, timeStamps[0] = head), the Go maps are\n")
+	sb.WriteString("    association lists (first binding wins, delete removes every binding), closed channels are listed in `ev`.\n")
+	sb.WriteString("    `Model/WMTie.lean` proves that this is `Watermark.step`. -/\n")
+	sb.WriteString("set_option linter.unusedVariables false\nnamespace GenWM\n\n")
+	sb.WriteString("def heapPush (t : Nat) : List Nat → List Nat\n  | [] => [t]\n  | h :: rest => if t ≤ h then t :: h :: rest else h :: heapPush t rest\n\n")
+	fd := findFunc(p, "WaterMark", "process")
+	var body []ast.Stmt
+	if fd != nil {
+		ast.Inspect(fd.Body, func(n ast.Node) bool {
+			cc, ok := n.(*ast.CommClause)
+			if ok && cc.Comm != nil && strings.HasSuffix(goStr(cc.Comm), "<-w.markC") {
+				body = cc.Body
+			}
+			return true
+		})
+	}
+	spec := transSpec{
+		leanName: "handle",
+		binders:  "(isWait : Bool) (ts : Nat) (done : Bool) (ch : Nat) (du : Nat) (timeStamps : List Nat) (pending : List (Nat × Int)) (waiters : List (Nat × List Nat)) (ev : List Nat)",
+		retType:  "Nat × List Nat × List (Nat × Int) × List (Nat × List Nat) × List Nat",
+		exprMap: map[string]string{"m.waiter != nil": "isWait", "m.ts": "ts", "m.done": "done", "m.waiter": "ch",
+			"timeStamps.Len() > 0": "(!timeStamps.isEmpty)", "timeStamps[0]": "(timeStamps.headD 0)"},
+		state:   []string{"w.DoneUntil()", "timeStamps", "pending", "waiters", "ev", "doneUntil", "cnt"},
+		stateLn: []string{"du", "timeStamps", "pending", "waiters", "ev", "doneUntil", "cnt"},
+		stateTy: []string{"Nat", "List Nat", "List (Nat × Int)", "List (Nat × List Nat)", "List Nat", "Nat", "Int"},
+		evVar:   "ev", closeEv: true, topCont: true, litType: "Int", join: true,
+		mapDefault: map[string]string{"pending": "(0 : Int)", "waiters": "[]"},
+		loopFuel:   "timeStamps.length",
+		wraps: map[string]func(string) string{
+			"heap.Push(&timeStamps, ts)": func(tail string) string { return "(let timeStamps := heapPush ts timeStamps; " + tail + ")" },
+			"heap.Pop(&timeStamps)":      func(tail string) string { return "(let timeStamps := timeStamps.tail; " + tail + ")" },
+			"w.doneUntil.Store(doneUntil)": func(tail string) string { return "(let du := doneUntil; " + tail + ")" },
+		},
+		ret:      func(vals []string, st []string) string { return "(du, timeStamps, pending, waiters, ev)" },
+		fallOff:  func(st []string) string { return "(du, timeStamps, pending, waiters, ev)" },
+		panicVal: "(du, timeStamps, pending, waiters, ev)",
+		skipCall: func(c *ast.CallExpr) bool { return strings.HasPrefix(goStr(c.Fun), "vhook.") },
+	}
+	var d string
+	err := fmt.Errorf("the markC branch of WaterMark.process was not found")
+	if body != nil {
+		t := &translator{spec: spec}
+		// the two locals that are assigned inside the loops are part of the state tuple: they get a value before their
+		// Go declaration so that every continuation is closed
+		tr := t.stmts(body, func() string { return spec.fallOff(spec.stateLn) }, "", "")
+		err = t.err
+		d = fmt.Sprintf("def %s %s : %s :=\n  let doneUntil : Nat := 0\n  let cnt : Int := 0\n  %s\n", spec.leanName, spec.binders, spec.retType, tr)
+	}
+	if err != nil {
+		d = fmt.Sprintf("/-- UNTRANSLATABLE: %s -/\ndef %s : Unit := ()\n", strings.ReplaceAll(err.Error(), "-/", "- /"), spec.leanName)
+	}
+	sb.WriteString(d + "\nend GenWM\n")
 	if err := os.WriteFile(out, []byte(sb.String()), 0644); err != nil {
 		fatal(err)
 	}
